@@ -12,7 +12,7 @@ META = {
     "property_id": "C15",
     "design_ref": "DESIGN.md §4 C15",
     "technique": "Coq proof (induction over the shape suffix, lia with div/mod) + exhaustive small-scope correspondence evaluated by vm_compute",
-    "level_text": "Theorems over all shapes/ranges on the Gallina model of _split_tensor_block_recovery: ordered partition, slab shape/alignment/cell, minimality of the piece count, empty range, non-flat rejection; the model is tied to both copies (FSDP, HSDP) by an exhaustive comparison on all shapes with numel<=36 (order<=4, order 5 with dims<=2) and all (start,end), done inside coqc.",
+    "level_text": "Theorems over all shapes/ranges on the Gallina model of _split_tensor_block_recovery: ordered partition, slab shape/alignment/cell, minimality of the piece count among all ordered partitions into genuine slabs (split_minimal), empty range, non-flat rejection; the model is tied to both copies (FSDP, HSDP) by an exhaustive comparison on all shapes with numel<=36 (order<=4, order 5 with dims<=2) and all (start,end), done inside coqc.",
     "ready": True,
     "level_note": "Trusted: Coq kernel+vm_compute; the hand-written model (checked against the code only on the enumerated/random inputs); torch narrow/view/storage_offset semantics as observed.",
 }
@@ -68,7 +68,7 @@ def coq_pieces(pieces) -> str:
 
 
 HEADER = """From Coq Require Import ZArith List String.
-From Shampoo Require Import Show SplitRecovery SplitRecoveryProofs SplitChecker.
+From Shampoo Require Import Show SplitRecovery SplitRecoveryProofs SplitChecker SplitMinimal SplitCheckerStrict.
 Import ListNotations. Open Scope Z_scope.
 """
 
@@ -157,7 +157,7 @@ def run(ck: Check) -> None:
             items = []
             for sh, s, e, ci, ok, pieces in chunk:
                 shs = "[" + "; ".join(map(str, sh)) + "]"
-                items.append("false" if isinstance(ok, str) else f"andb {coq_bool(ok)} (C15_checkb {shs} {s} {e} {coq_pieces(pieces)})")
+                items.append("false" if isinstance(ok, str) else f"andb {coq_bool(ok)} (C15_checkb_strict {shs} {s} {e} {coq_pieces(pieces)})")
             srcs[f"c15_chk_{fi:04d}"] = HEADER + "Definition results : list bool := [" + ";\n".join(items) + "].\nEval vm_compute in show_bools results.\n"
         o2 = ck.eval_coq(srcs)
         flat2 = "".join(o2[f"c15_chk_{fi:04d}"][0] for fi in range(len(srcs)))
@@ -167,7 +167,7 @@ def run(ck: Check) -> None:
             sh, s, e, ci, ok, pieces = failing[0]
             ck.report(None, f"{['FSDP', 'HSDP'][ci]} copy violates C15 on shape={list(sh)} start={s} end={e}: returned {pieces} (views_ok={ok})",
                       {"kind": "property-fails", "copy": ["fsdp", "hsdp"][ci], "shape": list(sh), "start": s, "end": e,
-                       "impl_pieces": pieces, "views_ok": ok, "n_failing": len(failing), "predicate": "C15_checkb (ordered partition, slabs, minimal count) and views"})
+                       "impl_pieces": pieces, "views_ok": ok, "n_failing": len(failing), "predicate": "C15_checkb_strict (ordered partition, genuine slabs, minimal count) and views"})
         else:
             sh, s, e, ci, ok, pieces = bad[0]
             ck.report(None, f"model/implementation correspondence broken ({len(bad)} cases, first: copy={ci} shape={list(sh)} [{s},{e})) but the implementation output still passes C15_checkb",
